@@ -48,10 +48,17 @@ type Type struct {
 	Target *TT     `json:"target,omitempty"`
 }
 
+type Const struct {
+	Name  string   `json:"name"`
+	Type  *TT      `json:"type"`
+	Value *Default `json:"value"`
+}
+
 type Module struct {
-	Path  string `json:"path"`
-	Name  string `json:"name"`
-	Types []Type `json:"types"`
+	Path   string  `json:"path"`
+	Name   string  `json:"name"`
+	Types  []Type  `json:"types"`
+	Consts []Const `json:"consts,omitempty"`
 }
 
 // Emitter produces adapter source for one generated package at a time.
@@ -156,6 +163,16 @@ func candidates(thrift string) []string {
 		sb.WriteByte(c)
 	}
 	out = append(out, sb.String())
+	// SCREAMING_SNAKE -> ScreamingSnake
+	var sb2 strings.Builder
+	for _, part := range strings.Split(thrift, "_") {
+		if part == "" {
+			continue
+		}
+		lower := strings.ToLower(part)
+		sb2.WriteString(strings.ToUpper(lower[:1]) + lower[1:])
+	}
+	out = append(out, sb2.String())
 	return out
 }
 
@@ -285,7 +302,7 @@ func (e *Emitter) anyExpr(t *TT, gt types.Type, d string, free string) string {
 			var sb bytes.Buffer
 			gts := e.ts(gt)
 			fmt.Fprintf(&sb, "func %s(d int, free bool) %s {\n", name, gts)
-			fmt.Fprintf(&sb, "\tn := %d\n\tif free {\n\t\tn = zzlib.VerifChoice(%d)\n\t}\n", e.K, e.K+1)
+			fmt.Fprintf(&sb, "\tn := zzlib.ContainerSize(free)\n")
 			fmt.Fprintf(&sb, "\tif n == 0 {\n\t\tif zzlib.VerifChoice(2) == 0 {\n\t\t\treturn nil\n\t\t}\n\t\treturn %s{}\n\t}\n", gts)
 			switch uu := u.(type) {
 			case *types.Slice:
@@ -620,6 +637,36 @@ func (e *Emitter) EmitPackage(mod *Module) ([]byte, error) {
 			fmt.Fprintf(&regs, "%v, ", f.Required)
 		}
 		fmt.Fprintf(&regs, "},\n\t})\n")
+	}
+	// constants: the generated Go constant/variable must equal the IDL literal
+	for _, c := range mod.Consts {
+		obj := e.cur.Scope().Lookup(c.Name)
+		if obj == nil {
+			n := candidates(c.Name)
+			for _, cand := range n {
+				if o := e.cur.Scope().Lookup(cand); o != nil {
+					obj = o
+					break
+				}
+			}
+		}
+		lit, ok := defaultLit(c.Value, c.Type)
+		if obj == nil || !ok {
+			e.Skipped = append(e.Skipped, mod.Name+"."+c.Name+": constant not checked (no Go object or non-primitive value)")
+			continue
+		}
+		var cmp string
+		switch c.Type.K {
+		case "string":
+			cmp = fmt.Sprintf("string(%s) == %s", obj.Name(), lit)
+		case "double":
+			cmp = fmt.Sprintf("float64(%s) == float64(%s)", obj.Name(), lit)
+		case "bool":
+			cmp = fmt.Sprintf("bool(%s) == %s", obj.Name(), lit)
+		default:
+			cmp = fmt.Sprintf("int64(%s) == int64(%s)", obj.Name(), lit)
+		}
+		fmt.Fprintf(&regs, "\tzzlib.RegisterConst(%q, func() bool { return %s })\n", mod.Name+"."+c.Name, cmp)
 	}
 	var out bytes.Buffer
 	fmt.Fprintf(&out, "//go:build verif\n\n// Code generated by /verif/engine/gengen from the schema and the Go types of the generated package. DO NOT EDIT.\n\npackage %s\n\nimport (\n\t\"math\"\n\n\t%q\n\t\"go.uber.org/thriftrw/wire\"\n", e.cur.Name(), e.LibPath)
